@@ -363,6 +363,9 @@ func (t *Task) maybePreempt(k sideKey, write, sync bool) {
 	}
 	if p.Choose(2, "preempt") == 1 {
 		p.preemptUsed++
+		if debugPreempt {
+			fmt.Printf("PREEMPT g%d at %s (others=%d)\n", t.id, t.callerPos(), others)
+		}
 		t.yield()
 	}
 }
